@@ -164,6 +164,7 @@ func (in *Interp) fsMutate(what string, paths ...string) {
 		if in.choice(2) == 1 {
 			fs.log = append(fs.log, fmt.Sprintf("#%d CRASH before %s", fs.seq, what))
 			in.observe["crash_before_op"] = fmt.Sprintf("%d %s", fs.seq, what)
+			in.extra["crashop"] = what
 			in.obsTerms["crash_seq"] = in.B.Int64(int64(fs.seq))
 			panic(crashUnwind{id: fs.seq})
 		}
@@ -1054,9 +1055,21 @@ func init() {
 				in.powerLoss()
 			}
 			in.extra["fsimg:"+tag] = in.theFS().snapshot()
+			if w, ok := in.extra["crashop"].(string); ok {
+				in.extra["crashop:"+tag] = w
+			}
 		}
 		// open handles of the dead process are gone; nothing to do: objects are unreachable
 		return in.B.Bool(crashed), nil
+	})
+	reg(rtPkg+"CrashOp", func(in *Interp, fn *ssa.Function, a []Value) (Value, *iPanic) {
+		w, _ := in.extra["crashop:"+in.argStr(a[0])].(string)
+		return in.mkString(w), nil
+	})
+	reg(rtPkg+"Carry", func(in *Interp, fn *ssa.Function, a []Value) (Value, *iPanic) {
+		v := in.conInt(a[1].(*sym.Term), "rt.Carry value")
+		in.extra["carry:"+in.argStr(a[0])] = fmt.Sprintf("%d", v)
+		return in.B.Int64(int64(v)), nil
 	})
 	reg(rtPkg+"PowerLoss", func(in *Interp, fn *ssa.Function, a []Value) (Value, *iPanic) {
 		in.powerLoss()
